@@ -1358,6 +1358,11 @@ def evalf(e, env=None, seed=0, strict=False, tie=0.0):
                     v = val(a.args[1]) if gval(a.args[0]) else val(a.args[2])
                 except AlgError:
                     v = _prf(a.kind, tuple(argval(g) for g in a.args), seed)
+            elif k == "fn:round" and len(a.args) in (1, 2):
+                x = val(a.args[0])
+                nd = a.args[1] if len(a.args) == 2 else 0
+                nd = int(nd.cval()) if isinstance(nd, E) and nd.is_int() else (nd if isinstance(nd, int) else 0)
+                v = float("nan") if x != x or abs(x) == float("inf") else float(round(x, nd))
             elif k in ("fn:floor", "fn:ceil", "fn:trunc", "fn:int") and len(a.args) == 1:
                 x = val(a.args[0])
                 v = float("nan") if x != x or abs(x) == float("inf") else float({"fn:floor": math.floor, "fn:ceil": math.ceil}.get(k, math.trunc)(x))
